@@ -130,7 +130,7 @@ fn rand_text(rng: &mut Rng, len: usize, non_ascii: bool) -> String {
     s
 }
 
-fn text_case(out: &mut Out, s: &str) {
+pub fn text_case(out: &mut Out, s: &str) {
     let ascii = s.is_ascii();
     out.nt = !s.bytes().all(|c| b"ACGT".contains(&c));
     let inp = || l(vec![cps(s)]);
@@ -140,6 +140,17 @@ fn text_case(out: &mut Out, s: &str) {
         None => out.case("a.str", inp(), V::Bot),
         Some(d) => {
             out.case("a.str", inp(), ds_v(&d));
+            // C14: whatever the text, one base per char; ASCII chars by the table (a non-ASCII position is left open: 4)
+            let mut got = d.to_bytes();
+            let chars: Vec<char> = s.chars().collect();
+            if got.len() == chars.len() {
+                for (g, c) in got.iter_mut().zip(chars.iter()) {
+                    if !c.is_ascii() && *g < 4 {
+                        *g = 4;
+                    }
+                }
+            }
+            out.case("s.a.strmask", inp(), bytes_v(&got));
             if ascii {
                 // the property speaks about the str constructor on ASCII text only
                 out.case("s.a.str", inp(), bytes_v(&d.to_bytes()));
@@ -413,4 +424,23 @@ pub fn c16(out: &mut Out, rng: &mut Rng, tier: &Tier) {
             text_case(out, &s);
         }
     }
+}
+
+/// the str constructors inside the C14 run: ASCII and non-ASCII text of lengths around the block boundaries
+pub fn c14_texts(out: &mut Out, rng: &mut Rng, tier: &Tier) {
+    let n = if tier.thorough { 1500 } else { 100 };
+    for i in 0..n {
+        let len = match i % 5 {
+            0 => rng.below(6),
+            1 => 31 + rng.below(4),
+            2 => 63 + rng.below(4),
+            _ => rng.below(100),
+        };
+        let s = rand_text(rng, len, i % 2 == 0);
+        text_case(out, &s);
+    }
+    for s in ["", "\u{e9}", "AC\u{e9}GT", "\u{1F600}ACGT\u{1F600}", "ACGTNacgtn"] {
+        text_case(out, s);
+    }
+    out.nt = false;
 }
